@@ -76,6 +76,8 @@ func ruleNewKeepsConfig(w *World, r *Run, rule string) {
 				}
 			}
 			switch {
+			case logs != optF("map[string]witness.LogInfo") && faithfulMapCopy(s, logs, optF("map[string]witness.LogInfo")):
+				// a private copy with every entry taken over as it is
 			case logs != optF("map[string]witness.LogInfo"):
 				good, why = false, "the witness's log map is "+short(fmt.Sprint(logs))+", not the configured map as it is (re-keyed, wrapped or copied entries change which verifier and origin a log ID stands for)"
 			case signers != optF("[]note.Signer"):
@@ -796,4 +798,45 @@ func configValue(fn *ssa.Function, v ssa.Value, depth int) bool {
 		return true
 	}
 	return false
+}
+
+
+// faithfulMapCopy: dst is a map built in this function (or maps.Clone(src)) that receives, for every iteration over src on
+// this path, exactly the iteration's key and value — a copy entry by entry, nothing re-keyed, wrapped or left out.
+func faithfulMapCopy(s Summary, dst, src *Term) bool {
+	if dst == nil || src == nil {
+		return false
+	}
+	if dst.Kind == "call" && dst.Name == "maps.Clone" && len(dst.Args) == 3 && dst.Args[2] == src {
+		return true
+	}
+	if dst.Kind != "alloc" {
+		return false
+	}
+	copied := map[string]bool{}
+	for _, mu := range eventsOfKind(s, "mapupdate") {
+		if mu.Recv != dst {
+			continue
+		}
+		k, v := mu.Args[0], mu.Args[1]
+		if !(k.Kind == "rangekey" && v.Kind == "rangeelem" && k.Name == v.Name && len(k.Args) == 1 && len(v.Args) == 1 && k.Args[0] == v.Args[0]) {
+			return false
+		}
+		it := k.Args[0]
+		if it.Kind != "rangeiter" || len(it.Args) == 0 || it.Args[0] != src {
+			return false
+		}
+		copied[k.Name] = true
+	}
+	// every iteration over src that the path ran through has its update
+	n := 0
+	for _, ev := range s.Events {
+		if ev.Kind == "iter" && ev.Recv != nil && ev.Recv.Kind == "rangeiter" && len(ev.Recv.Args) > 0 && ev.Recv.Args[0] == src {
+			if !copied[fmt.Sprint(n)] {
+				return false
+			}
+			n++
+		}
+	}
+	return true
 }
